@@ -6,7 +6,7 @@ open ParsecVerif ParsecVerif.Proto ParsecVerif.CommEngine
     served), and the `next_tag` variables. -/
 structure DS where
   s : St
-  pend : List Nat := []
+  pend : List Loc := []
   todo : List Nat := []
   serving : Option Nat := none
   tagMax : Nat := 0
@@ -42,7 +42,7 @@ def step (d : DS) : List String → DS × String
       else if ¬ d.s.okTest c then (d, "reject")
       else
         let descr := " ".intercalate (c.map (fun pos => ((d.s.slotAt pos).map Slot.showCb).getD "?"))
-        ({ d with s := d.s.test c, pend := c, todo := c }, if c.isEmpty then "-" else descr)
+        ({ d with s := d.s.test c, pend := c.map d.s.locate, todo := c }, if c.isEmpty then "-" else descr)
     | none => (d, "bad-op")
   | ["serve", pos] =>
     match nat? pos with
